@@ -60,11 +60,18 @@ func repoDir() string {
 	return "/repo"
 }
 
-// excluded reports whether a finding signature is excluded from the generators of this run.
-// VERIF_EXCLUDE is set by the driver from known_findings.json; VERIF_EXCLUDE_EXTRA is the same
-// list set by hand (the driver overwrites VERIF_EXCLUDE but passes every other variable through).
-func excluded(sig string) bool {
-	if ev.Excluded(sig) {
+// excluded reports whether a finding signature is excluded from this run.
+//
+// Generators (probe=false) skip mutants of a class listed in VERIF_EXCLUDE (set by the driver from
+// known_findings.json, status "known") or in VERIF_EXCLUDE_EXTRA (the same list set by hand; the
+// driver overwrites VERIF_EXCLUDE but passes every other variable through), so that the search
+// continues behind a known finding.
+//
+// The deterministic single-field tests (probe=true) are the probes of the known findings: they
+// keep reporting a class listed in VERIF_EXCLUDE - the driver turns that into a KNOWN-FINDING
+// line - and are silenced only by VERIF_EXCLUDE_EXTRA.
+func excluded(sig string, probe bool) bool {
+	if !probe && ev.Excluded(sig) {
 		return true
 	}
 	for _, s := range strings.Split(os.Getenv("VERIF_EXCLUDE_EXTRA"), ",") {
@@ -1158,7 +1165,7 @@ const blockRule = "case = honest provider answer consensus.Block for a verified 
 
 // checkBlockMutant runs the oracle on one mutant. It returns the outcome label and whether the
 // mutant was non-trivial; counted=false means the case was excluded by construction.
-func checkBlockMutant(t ev.Failer, rec *ev.Recorder, p *pair, m *consensus.Block, opLabel, desc string) (outcome string, nontrivial, counted bool) {
+func checkBlockMutant(t ev.Failer, rec *ev.Recorder, probe bool, p *pair, m *consensus.Block, opLabel, desc string) (outcome string, nontrivial, counted bool) {
 	d := diffBlock(p, m)
 	if d.decodable && len(d.classes) > 0 {
 		// Exclusion by construction: a mutant whose only differences are in classes that are known
@@ -1167,7 +1174,7 @@ func checkBlockMutant(t ev.Failer, rec *ev.Recorder, p *pair, m *consensus.Block
 		rest := 0
 		for _, c := range d.classes {
 			switch {
-			case excluded("unbound-" + c):
+			case excluded("unbound-"+c, probe):
 				nExcl++
 			case declaredUnbound[c] != "":
 			default:
@@ -1176,7 +1183,7 @@ func checkBlockMutant(t ev.Failer, rec *ev.Recorder, p *pair, m *consensus.Block
 		}
 		if nExcl > 0 && rest == 0 {
 			for _, c := range d.classes {
-				if excluded("unbound-" + c) {
+				if excluded("unbound-"+c, probe) {
 					rec.Discard("excluded:unbound-" + c)
 					break
 				}
@@ -1209,7 +1216,7 @@ func checkBlockMutant(t ev.Failer, rec *ev.Recorder, p *pair, m *consensus.Block
 		real = append(real, c)
 	}
 	for _, c := range real {
-		if !excluded("unbound-" + c) {
+		if !excluded("unbound-"+c, probe) {
 			ev.Violation(t, "unbound-"+c, "%s: verifyBlock ACCEPTED an answer that differs from the honest one in [%s] (first: %s); mutation: %s; mutant meta=%s",
 				p.name, strings.Join(d.classes, ","), d.detail, desc, short(m.Meta))
 		}
@@ -1283,7 +1290,7 @@ func TestC19BlockMutants(t *testing.T) {
 		}
 		desc := fmt.Sprintf("%v %v", names, details)
 		cur = p.name + ": " + desc
-		outcome, nontrivial, counted := checkBlockMutant(t, rec, p, &m, strings.Join(names, "+"), desc)
+		outcome, nontrivial, counted := checkBlockMutant(t, rec, false, p, &m, strings.Join(names, "+"), desc)
 		if !counted {
 			return
 		}
@@ -1368,7 +1375,7 @@ func TestC19LastCommitFields(t *testing.T) {
 		b, _ := pc.Marshal()
 		m := *p.blk
 		m.Meta = cbor.Marshal(cmtapi.BlockMeta{Header: p.hdr, LastCommit: b})
-		outcome, nontrivial, counted := checkBlockMutant(t, rec, p, &m, "lc-"+mu.class, mu.desc)
+		outcome, nontrivial, counted := checkBlockMutant(t, rec, true, p, &m, "lc-"+mu.class, mu.desc)
 		if !counted {
 			continue
 		}
@@ -2006,7 +2013,7 @@ func TestC19TxAndResults(t *testing.T) {
 			return
 		}
 		cur = b.name + ": results: " + desc
-		outcome, nontrivial, counted := checkResultsMutant(t, rec, b, m, desc)
+		outcome, nontrivial, counted := checkResultsMutant(t, rec, false, b, m, desc)
 		if !counted {
 			return
 		}
@@ -2021,13 +2028,13 @@ func TestC19TxAndResults(t *testing.T) {
 
 // checkResultsMutant runs the results oracle on one mutant (shared by the random and the
 // deterministic test). counted=false: excluded by construction.
-func checkResultsMutant(t ev.Failer, rec *ev.Recorder, b *txBase, m *consensus.BlockResults, desc string) (outcome string, nontrivial, counted bool) {
+func checkResultsMutant(t ev.Failer, rec *ev.Recorder, probe bool, b *txBase, m *consensus.BlockResults, desc string) (outcome string, nontrivial, counted bool) {
 	decodable, why, classes, detail := diffResults(b, m)
 	if decodable && len(classes) > 0 {
 		nExcl, rest := 0, 0
 		for _, c := range classes {
 			switch {
-			case excluded("unbound-" + c):
+			case excluded("unbound-"+c, probe):
 				nExcl++
 			case declaredUnbound[c] != "":
 			default:
@@ -2046,7 +2053,7 @@ func checkResultsMutant(t ev.Failer, rec *ev.Recorder, b *txBase, m *consensus.B
 		return e
 	})
 	if p != nil {
-		if excluded("panic-verifyBlockResults") {
+		if excluded("panic-verifyBlockResults", probe) {
 			rec.Discard("excluded:panic-verifyBlockResults")
 			return "", false, false
 		}
@@ -2080,7 +2087,7 @@ func checkResultsMutant(t ev.Failer, rec *ev.Recorder, b *txBase, m *consensus.B
 		}
 	}
 	for _, c := range classes {
-		if declaredUnbound[c] == "" && !excluded("unbound-"+c) {
+		if declaredUnbound[c] == "" && !excluded("unbound-"+c, probe) {
 			ev.Violation(t, "unbound-"+c, "%s: verifyBlockResults ACCEPTED an answer that differs from the honest one in [%s] (first: %s); mutation: %s",
 				b.name, strings.Join(classes, ","), detail, desc)
 		}
@@ -2152,7 +2159,10 @@ func TestC19ResultsFields(t *testing.T) {
 		ev.Violation(t, "unbound-results-hash", "recorded block results 25300000 accepted against the results hash of another height")
 	}
 	rec.Case(true, ev.Fingerprint("wrong-hash"), "honest results 25300000 against LastResultsHash of light block 25300000: rejected")
-	for i, mu := range muts {
+	// must-be-rejected mutants (index >= 4) first, so that a reported finding does not hide them
+	order := []int{4, 5, 6, 7, 8, 9, 0, 1, 2, 3}
+	for _, i := range order {
+		mu := muts[i]
 		if i%nshards != shard%nshards {
 			continue
 		}
@@ -2163,7 +2173,7 @@ func TestC19ResultsFields(t *testing.T) {
 		m := &consensus.BlockResults{Height: b.results.Height}
 		mu.f(meta, m)
 		m.Meta = cbor.Marshal(meta)
-		outcome, nontrivial, counted := checkResultsMutant(t, rec, b, m, mu.desc)
+		outcome, nontrivial, counted := checkResultsMutant(t, rec, true, b, m, mu.desc)
 		if !counted {
 			continue
 		}
@@ -3018,12 +3028,12 @@ func mutateVals(t *rapid.T, b, other *valBase) (m *consensus.Validators, op, des
 	return m, op, desc, m.Height != b.vals.Height || !bytes.Equal(m.Meta, b.vals.Meta)
 }
 
-func checkValsMutant(t ev.Failer, rec *ev.Recorder, b *valBase, m *consensus.Validators, desc string) (outcome string, nontrivial, counted bool) {
+func checkValsMutant(t ev.Failer, rec *ev.Recorder, probe bool, b *valBase, m *consensus.Validators, desc string) (outcome string, nontrivial, counted bool) {
 	decodable, why, classes, detail, reenc := diffVals(b, m)
 	if decodable && len(classes) > 0 {
 		nExcl, rest := 0, 0
 		for _, c := range classes {
-			if excluded("unbound-" + c) {
+			if excluded("unbound-"+c, probe) {
 				nExcl++
 			} else {
 				rest++
@@ -3050,7 +3060,7 @@ func checkValsMutant(t ev.Failer, rec *ev.Recorder, b *valBase, m *consensus.Val
 		ev.Violation(t, "accepted-undecodable", "%s: verifyNextValidators accepted an answer the independent decoder rejects (%s); mutation: %s", b.name, why, desc)
 	}
 	for _, c := range classes {
-		if !excluded("unbound-" + c) {
+		if !excluded("unbound-"+c, probe) {
 			ev.Violation(t, "unbound-"+c, "%s: verifyNextValidators ACCEPTED an answer that differs from the honest one in [%s] (first: %s); mutation: %s",
 				b.name, strings.Join(classes, ","), detail, desc)
 		}
@@ -3102,7 +3112,7 @@ func TestC19Validators(t *testing.T) {
 			return
 		}
 		cur = b.name + ": " + desc
-		outcome, nontrivial, counted := checkValsMutant(t, rec, b, m, desc)
+		outcome, nontrivial, counted := checkValsMutant(t, rec, false, b, m, desc)
 		if !counted {
 			return
 		}
@@ -3158,7 +3168,9 @@ func TestC19ValidatorsFields(t *testing.T) {
 		{"validator 0: voting power + 1", func(pvs *cmtproto.ValidatorSet, _ *consensus.Validators) { pvs.Validators[0].VotingPower++ }},
 		{"height + 1", func(_ *cmtproto.ValidatorSet, m *consensus.Validators) { m.Height++ }},
 	}
-	for i, mu := range muts {
+	// must-be-rejected mutants first, so that a reported finding does not hide them
+	for _, i := range []int{2, 3, 0, 1} {
+		mu := muts[i]
 		if i%nshards != shard%nshards {
 			continue
 		}
@@ -3169,7 +3181,7 @@ func TestC19ValidatorsFields(t *testing.T) {
 		m := &consensus.Validators{Height: b.vals.Height}
 		mu.f(&pvs, m)
 		m.Meta, _ = pvs.Marshal()
-		outcome, nontrivial, counted := checkValsMutant(t, rec, b, m, mu.desc)
+		outcome, nontrivial, counted := checkValsMutant(t, rec, true, b, m, mu.desc)
 		if !counted {
 			continue
 		}
